@@ -118,7 +118,10 @@ inductive Outcome
   | scalar                                  -- returns a scalar that still depends on its inputs
   | vector                                  -- returns a non-scalar (two components)
   | plain                                   -- returns a plain Python number (no gradient chain)
-  | raise                                   -- raises
+  | raise                                   -- raises an `Exception`
+  | interrupt                               -- is ended by a `BaseException` that is not an `Exception`
+                                            -- (KeyboardInterrupt, SystemExit, GeneratorExit, ...):
+                                            -- `finally` still runs, `except Exception` does not catch it
   | unknown (n : Name) (selfBind : Bool)    -- refers to the unknown name `n` and fails; the
                                             -- interpreter may bind `n` to itself on that path
 deriving DecidableEq, Repr
@@ -140,6 +143,7 @@ deriving DecidableEq, Repr
 inductive Ret
   | val (size : Nat) (attached : Bool)
   | exc
+  | abort      -- propagating BaseException: never caught by the `except Exception` fallbacks
 deriving DecidableEq, Repr
 
 def observe (cfg : Cfg) (arg : Option Ref) (s : St) : Obs :=
@@ -157,6 +161,7 @@ def callF (sc : Script) (cfg : Cfg) (arg : Option Ref) (s : St) : St × Ret :=
     | .vector => (s1, .val 2 true)
     | .plain => (s1, .val 1 false)
     | .raise => (s1, .exc)
+    | .interrupt => (s1, .abort)
     | .unknown n b => (if b then { s1 with store := bindSelf s1.store n } else s1, .exc)
 
 /-! ### heap primitives -/
@@ -292,10 +297,12 @@ def jacLoop (sc : Script) (cfg : Cfg) (w : Wrap) (x : Ref) (m : Nat) : List Nat 
     let r1 := invoke sc cfg w a.2 b.1
     match r1.2 with
     | .exc => (r1.1, false)
+    | .abort => (r1.1, false)
     | .val n1 _ =>
       let r2 := invoke sc cfg w b.2 r1.1
       match r2.2 with
       | .exc => (r2.1, false)
+      | .abort => (r2.1, false)
       | .val n2 _ => if colOk m n1 n2 then jacLoop sc cfg w x m js r2.1 else (r2.1, false)
 
 def jacNumeric (sc : Script) (cfg : Cfg) (w : Wrap) (b : Bind) (s : St) : St × Bool :=
@@ -306,6 +313,7 @@ def jacNumeric (sc : Script) (cfg : Cfg) (w : Wrap) (b : Bind) (s : St) : St × 
     let r0 := invoke sc cfg w a.2 a.1
     match r0.2 with
     | .exc => (r0.1, false)
+    | .abort => (r0.1, false)
     | .val m _ => jacLoop sc cfg w x m (List.range (sizeAt r0.1 x)) r0.1
 
 /-- torch: `compute_jacobian` on a grad tensor, numeric fallback on any exception -/
@@ -316,6 +324,7 @@ def jacTorch (sc : Script) (cfg : Cfg) (w : Wrap) (b : Bind) (s : St) : St × Bo
     let r := invoke sc cfg w t s1
     match r.2 with
     | .val _ true => (r.1, true)
+    | .abort => (r.1, false)       -- `except Exception:` does not catch it: no numeric fallback
     | _ => jacNumeric sc cfg w b r.1
 
 def jacOf (be : Backend) (sc : Script) (cfg : Cfg) (w : Wrap) (b : Bind) (s : St) : St × Bool :=
@@ -466,7 +475,7 @@ def parseBinding (t : String) : Option (Name × Bind) :=
   | _ => none
 
 def parseOutcome (unk : Name) : String → Option Outcome
-  | "s" => some .scalar | "v" => some .vector | "p" => some .plain | "r" => some .raise
+  | "s" => some .scalar | "v" => some .vector | "p" => some .plain | "r" => some .raise | "i" => some .interrupt
   | "u0" => some (.unknown unk false) | "u1" => some (.unknown unk true)
   | _ => none
 
